@@ -1,6 +1,7 @@
 //! Core-Sylt AST owned by the harness (never derived from the repository's parser output)
 //! and its surface printer.
 
+use std::cell::Cell;
 use std::sync::Arc;
 
 pub type Name = String;
@@ -382,6 +383,9 @@ pub struct PrintOpts {
     pub crlf: bool,
     /// line breaks after `(`, `[` and `,` inside call arguments, lists and tuples
     pub break_brackets: bool,
+    /// inside brackets: a line break before every binary operator and before `->` of arrow calls, and a prime call in
+    /// the last argument slot of another prime call is written without its own parentheses
+    pub break_infix: bool,
 }
 
 pub struct Printed {
@@ -397,11 +401,39 @@ pub struct Printer {
     pub opts: PrintOpts,
     unreachable_lines: Vec<usize>,
     stmt_counter: u32,
+    /// bracket nesting depth of the expression being printed (newlines are insignificant when > 0)
+    depth: Cell<u32>,
 }
 
 impl Printer {
     pub fn new(opts: PrintOpts) -> Self {
-        Printer { out: String::new(), line: 1, indent: 0, opts, unreachable_lines: Vec::new(), stmt_counter: 0 }
+        Printer { out: String::new(), line: 1, indent: 0, opts, unreachable_lines: Vec::new(), stmt_counter: 0, depth: Cell::new(0) }
+    }
+
+    fn bracketed<R>(&self, f: impl FnOnce() -> R) -> R {
+        self.depth.set(self.depth.get() + 1);
+        let r = f();
+        self.depth.set(self.depth.get() - 1);
+        r
+    }
+
+    /// separator before an infix operator
+    fn infix_gap(&self) -> &'static str {
+        if self.opts.break_infix && self.depth.get() > 0 { "\n" } else { " " }
+    }
+
+    /// last argument of a prime call: another prime call there may stand without its own parentheses
+    fn prime_args(&self, args: &[Expr], sep: &str) -> String {
+        let n = args.len();
+        args.iter()
+            .enumerate()
+            .map(|(i, x)| {
+                let t = self.expr(x, if matches!(x, Expr::Un(..)) { 8 } else { 1 });
+                let bare_ok = self.opts.break_infix && i + 1 == n && matches!(x, Expr::Call(_, a, CallStyle::Prime | CallStyle::ArrowPrime) if !a.is_empty() && !(a.len() == 1 && matches!(x, Expr::Call(_, _, CallStyle::ArrowPrime))));
+                if bare_ok && t.starts_with('(') && t.ends_with(')') { t[1..t.len() - 1].to_string() } else { t }
+            })
+            .collect::<Vec<_>>()
+            .join(sep)
     }
 
     fn nl(&mut self) {
@@ -669,7 +701,7 @@ impl Printer {
             Expr::Var(n) => (n.clone(), 9),
             Expr::NsVar(a, n) => (format!("{}.{}", a, n), 8),
             Expr::Raw(s) => (s.clone(), 0),
-            Expr::Paren(x) => (format!("({})", self.expr(x, 0)), 9),
+            Expr::Paren(x) => (format!("({})", self.bracketed(|| self.expr(x, 0))), 9),
             Expr::Bin(op, a, b) => {
                 let p = op.prec();
                 let (la, lb) = if self.opts.full_parens { (9, 9) } else { (p, p + 1) };
@@ -682,7 +714,7 @@ impl Printer {
                         self.expr(x, lvl)
                     }
                 };
-                (format!("{} {} {}", side(a, la), op.text(), side(b, lb)), p)
+                (format!("{}{}{} {}", side(a, la), self.infix_gap(), op.text(), side(b, lb)), p)
             }
             Expr::Un(op, a) => {
                 // the table is silent on unary vs * /: the operand is always an atom or parenthesised
@@ -696,42 +728,48 @@ impl Printer {
                 let style = if args.is_empty() && matches!(style, CallStyle::Arrow | CallStyle::ArrowPrime) { CallStyle::Paren } else { *style };
                 match style {
                     CallStyle::Paren => {
+                        let callee = self.expr(f, 8);
                         if self.opts.break_brackets && !args.is_empty() {
-                            let a = args.iter().map(|x| self.expr(x, 0)).collect::<Vec<_>>().join(",\n");
-                            (format!("{}(\n{}\n)", self.expr(f, 8), a), 8)
+                            let a = self.bracketed(|| args.iter().map(|x| self.expr(x, 0)).collect::<Vec<_>>().join(",\n"));
+                            (format!("{}(\n{}\n)", callee, a), 8)
                         } else {
-                            let a = args.iter().map(|x| self.expr(x, 0)).collect::<Vec<_>>().join(", ");
-                            (format!("{}({})", self.expr(f, 8), a), 8)
+                            let a = self.bracketed(|| args.iter().map(|x| self.expr(x, 0)).collect::<Vec<_>>().join(", "));
+                            (format!("{}({})", callee, a), 8)
                         }
                     }
                     CallStyle::Prime => {
                         // a prime call absorbs everything up to the end of the line: always wrapped
                         let sep = if self.opts.break_brackets { ",\n" } else { ", " };
-                        let a = args.iter().map(|x| self.expr(x, if matches!(x, Expr::Un(..)) { 8 } else { 1 })).collect::<Vec<_>>().join(sep);
+                        let callee = self.bracketed(|| self.expr(f, 8));
+                        let a = self.bracketed(|| self.prime_args(args, sep));
                         if a.is_empty() {
                             (format!("{}'", self.expr(f, 8)), 8)
                         } else {
-                            (format!("({}' {})", self.expr(f, 8), a), 9)
+                            (format!("({}' {})", callee, a), 9)
                         }
                     }
                     CallStyle::Arrow => {
-                        let a = args[1..].iter().map(|x| self.expr(x, 0)).collect::<Vec<_>>().join(", ");
-                        (format!("({} -> {}({}))", self.expr(&args[0], 8), self.expr(f, 8), a), 9)
+                        self.bracketed(|| {
+                            let a = args[1..].iter().map(|x| self.expr(x, 0)).collect::<Vec<_>>().join(", ");
+                            (format!("({}{}-> {}({}))", self.expr(&args[0], 8), self.infix_gap(), self.expr(f, 8), a), 9)
+                        })
                     }
                     CallStyle::ArrowPrime => {
-                        let sep = if self.opts.break_brackets { ",\n" } else { ", " };
-                        let a = args[1..].iter().map(|x| self.expr(x, if matches!(x, Expr::Un(..)) { 8 } else { 1 })).collect::<Vec<_>>().join(sep);
-                        if a.is_empty() {
-                            (format!("({} -> {}')", self.expr(&args[0], 8), self.expr(f, 8)), 9)
-                        } else {
-                            (format!("({} -> {}' {})", self.expr(&args[0], 8), self.expr(f, 8), a), 9)
-                        }
+                        self.bracketed(|| {
+                            let sep = if self.opts.break_brackets { ",\n" } else { ", " };
+                            let a = self.prime_args(&args[1..], sep);
+                            if a.is_empty() {
+                                (format!("({}{}-> {}')", self.expr(&args[0], 8), self.infix_gap(), self.expr(f, 8)), 9)
+                            } else {
+                                (format!("({}{}-> {}' {})", self.expr(&args[0], 8), self.infix_gap(), self.expr(f, 8), a), 9)
+                            }
+                        })
                     }
                 }
             }
             Expr::Tuple(xs) => {
                 let sep = if self.opts.break_brackets && xs.len() > 1 { ",\n" } else { ", " };
-                let a = xs.iter().map(|x| self.expr(x, 0)).collect::<Vec<_>>().join(sep);
+                let a = self.bracketed(|| xs.iter().map(|x| self.expr(x, 0)).collect::<Vec<_>>().join(sep));
                 if xs.len() == 1 {
                     (format!("({},)", a), 9)
                 } else if self.opts.break_brackets && xs.len() > 1 {
@@ -742,9 +780,9 @@ impl Printer {
             }
             Expr::List(xs) => {
                 if self.opts.break_brackets && !xs.is_empty() {
-                    (format!("[\n{},\n]", xs.iter().map(|x| self.expr(x, 0)).collect::<Vec<_>>().join(",\n")), 9)
+                    (format!("[\n{},\n]", self.bracketed(|| xs.iter().map(|x| self.expr(x, 0)).collect::<Vec<_>>().join(",\n"))), 9)
                 } else {
-                    (format!("[{}]", xs.iter().map(|x| self.expr(x, 0)).collect::<Vec<_>>().join(", ")), 9)
+                    (format!("[{}]", self.bracketed(|| xs.iter().map(|x| self.expr(x, 0)).collect::<Vec<_>>().join(", "))), 9)
                 }
             }
             Expr::Index(a, i) => (format!("{}[{}]", self.expr(a, 8), i), 8),
